@@ -23,6 +23,11 @@ node reports read_only and every mutating operation is refused with an identical
 (unwrapped) dump before and after; with skel_only no revealing operation returns; with
 local_only every reached node's name lies at or below the start node, and ``file``,
 ``parent`` at the local root and absolute paths are refused; no step ever drops a flag.
+Oracle only (not modelled): what the public metadata listings hand out -- ``.node`` of the
+StoredMetadata items of ``meta.values()`` / ``meta.items()`` and its ``.file`` / ``.parent`` must lie
+at or below a local_only start node, and no mutation may succeed through them below a
+read_only start node (probe_meta; one canonical signature per escape, independent of driver,
+start node, route and listing method).
 """
 from __future__ import annotations
 
@@ -69,27 +74,27 @@ def _prims() -> List[list]:
     P: List[list] = []
     for r in (["h"], ["e"], ["h", "d"], ["d"], ["g"], ["top"], ["zn"]):
         P.append(["getitem", False, r])
-    for a in ([], ["g"], ["g", "h", "d"], ["top"]):
+    for a in ([], ["g", "h", "d"]):
         P.append(["getitem", True, a])
-    for r in (["h"], ["d"], ["g", "h"], ["nope"]):
+    for r in (["h"], ["nope"]):
         P.append(["get", False, r])
-    for a in ([], ["g", "h"]):
+    for a in (["g", "h"],):
         P.append(["get", True, a])
     P.append(["parent"])
     P.append(["file"])
-    for nm in ("h", "e", "g", "d"):
+    for nm in ("h", "e", "d"):
         P.append(["items", nm])
-    for nm in ("h", "g", "d", "top"):
+    for nm in ("h", "d"):
         P.append(["values", nm])
-    for r in (["h"], ["h", "d"], ["d"], ["g", "e"]):
+    for r in (["h"], ["h", "d"], ["g", "e"]):
         P.append(["visit", r])
     P += [
         ["create_group", False, ["zn"]],
-        ["create_group", False, ["h"]], ["create_group", True, ["zn"]],
+        ["create_group", False, ["h"]],
         ["require_group", False, ["h"]], ["require_group", False, ["zn"]],
         ["require_group", True, ["g"]], ["require_group", False, ["e"]],
         ["create_dataset", False, ["zd"]], ["create_dataset", False, ["e"]],
-        ["require_dataset", False, ["e"]], ["require_dataset", False, ["zd"]],
+        ["require_dataset", False, ["e"]],
         ["require_dataset", True, ["top"]],
     ]
     for t in (["g"], ["g", "h", "d"], ["g", "h"], []):
@@ -541,6 +546,85 @@ def run_op(env: Env, sess: Session, node, op) -> Tuple[str, str]:
     return res, detail
 
 
+META_HOPS = [["values", "node"], ["values", "file"], ["values", "parent"], ["items", "node"], ["items", "file"]]
+LO_META_CLAIM = ("an item of meta.values()/items() of a node below a local_only start node yields an object "
+                 "above/outside the local root")
+RO_META_CLAIM = ("a mutation succeeds through an object yielded by an item of meta.values()/items() of a node "
+                 "below a read_only start node")
+
+
+def probe_meta(env: Env, node, try_write: bool) -> List[list]:
+    """`.node` of the StoredMetadata items a node's meta listing hands out, and `.node.file` /
+    `.node.parent`: -> per META_HOPS entry [status, name, wrote] with status in
+    refused | none | raw | wrapped | err."""
+    out = []
+    listing: Dict[str, Any] = {}
+    for via, hop in META_HOPS:
+        try:
+            if via not in listing:
+                try:
+                    m = node.meta
+                    listing[via] = ("ok", list(m.values()) if via == "values" else [v for _, v in m.items()])
+                except vlib.CaseTimeout:
+                    raise
+                except Exception as e:  # noqa: BLE001
+                    listing[via] = ("refused" if is_refusal(e) else "err", f"{type(e).__name__}: {e}"[:100])
+            st, objs = listing[via]
+            if st != "ok":
+                out.append([st, "", False])
+                continue
+            if not objs:
+                out.append(["none", "", False])
+                continue
+            obj = objs[0].node
+            if hop == "file":
+                obj = obj.file
+            elif hop == "parent":
+                obj = obj.parent
+            from metador_core.container.wrappers import MetadorNode
+            status = "wrapped" if isinstance(obj, MetadorNode) else "raw"
+            name = str(getattr(obj, "name", "?"))
+            wrote = False
+            if try_write:
+                base = name.rstrip("/")
+                try:
+                    if hasattr(obj, "ndim"):
+                        obj.attrs["zz_escaped"] = 1
+                        wrote = "zz_escaped" in env.raw[name].attrs
+                    else:
+                        obj.create_group("zz_escaped")
+                        wrote = (base + "/zz_escaped") in env.raw
+                except vlib.CaseTimeout:
+                    raise
+                except Exception:  # noqa: BLE001
+                    wrote = False
+                if wrote:
+                    if hasattr(obj, "ndim"):
+                        _raw_attr_del(env, name, "zz_escaped")
+                    else:
+                        _raw_del(env, base + "/zz_escaped")
+            out.append([status, name, wrote])
+        except vlib.CaseTimeout:
+            raise
+        except Exception as e:  # noqa: BLE001
+            out.append(["refused" if is_refusal(e) else "err", f"{type(e).__name__}: {e}"[:100], False])
+    return out
+
+
+def claims_meta(flags, start_path, hop_result) -> List[str]:
+    """The property's statements about what a metadata listing hands out."""
+    status, name, wrote = hop_result
+    probs = []
+    if status not in ("raw", "wrapped"):
+        return probs
+    segs = [x for x in name.split("/") if x]
+    if flags[1] and segs[:len(start_path)] != list(start_path):
+        probs.append(LO_META_CLAIM)
+    if flags[0] and wrote:
+        probs.append(RO_META_CLAIM)
+    return probs
+
+
 def run_suite(env: Env, sess: Session, node, ops: List[list], baseline, only=None):
     """Attempt the operations (all, or those selected by `only`) and compare the raw dump
     with the baseline.  -> (results per op ('-' = not attempted), new baseline, state problems)"""
@@ -701,7 +785,9 @@ def w_explore(task) -> Dict[str, Any]:
                             results, b2, problems = run_suite(env, s2, res, OPS[kind], state["baseline"])
                             state["baseline"] = b2
                             out["suites"] += 1
+                            item_meta = probe_meta(env, res, bool(flags[0]))
                         else:
+                            item_meta = None
                             sel = witness_selector(flags, kind)
                             if sel is None:
                                 results, problems = ["-"] * len(OPS[kind]), []
@@ -712,6 +798,7 @@ def w_explore(task) -> Dict[str, Any]:
                             out["state_drift"] += 1
                         item.append(results)
                         item.append(problems)
+                        item.append(item_meta)
                         rec["fan"].append(item)
                         if not last:
                             go = True
@@ -727,7 +814,8 @@ def w_explore(task) -> Dict[str, Any]:
                 segs, kind, acl = node_obs(sess0.node)
                 results, b2, problems = run_suite(env, sess0, sess0.node, OPS[kind], state["baseline"])
                 state["baseline"] = b2
-                out["start"] = [segs, kind, list(acl), results, problems]
+                out["start"] = [segs, kind, list(acl), results, problems,
+                                probe_meta(env, sess0.node, bool(flags[0]))]
                 out["suites"] += 1
                 explore(sess0, sess0.node, [], 0)
                 out["wall"] = _t.time() - t_start
@@ -773,7 +861,12 @@ def eval_case(case: Dict[str, Any]) -> Dict[str, Any]:
                 prev_acl = acl
             if res["problems"] and case.get("demo"):
                 res["demo"] = _demo_write(env, node if node is not None else last_raw)
-            if node is not None and op is not None:
+            if node is not None and op is not None and op[0] == "meta_node":
+                hops = probe_meta(env, node, bool(flags[0]))
+                got = hops[META_HOPS.index(list(op[1:3]))]
+                res["op"] = [op, got]
+                res["problems"] += claims_meta(flags, start_path, got)
+            elif node is not None and op is not None:
                 before = env.dump()
                 out, detail = run_op(env, sess, node, op)
                 after = env.dump()
@@ -869,6 +962,9 @@ def decode_navres(x):
 def canon_sig(case: Dict[str, Any]) -> Dict[str, Any]:
     """Signature of a shrunk failing case: primitive kinds in order (with absolute/relative),
     start kind, the start flags that matter, operation kind, and the failing claim."""
+    if case.get("op") and case["op"][0] == "meta_node":
+        # the same escape whatever the driver, the start node, the route and the listing method
+        return {"escape": "meta-listing-node", "claim": case.get("claim")}
     return {
         "start": case["start"],
         "chain": [[p[0]] + ([bool(p[1])] if len(p) == 3 else []) + ([p[1]] if p[0] == "restrict" else [])
@@ -896,7 +992,7 @@ def run(ctx: vlib.Ctx):
     # IH5 path resolution is ~40x slower than h5py, the wrapper code under test is the same for both drivers.
     plan = {
         "hdf5": (3, None) if ctx.quick else (4, (3, 0.10)),
-        "ih5": (2, (1, 0.2)) if ctx.quick else (3, (2, 0.1)),
+        "ih5": (2, (1, 0.1)) if ctx.quick else (3, (2, 0.1)),
     }
     nslices = {"hdf5": 4, "ih5": 2}
     tasks = [(d, s, f, plan[d][0], sl, nslices[d], plan[d][1], ctx.seed)
@@ -976,10 +1072,22 @@ def run(ctx: vlib.Ctx):
                     candidates.append({"driver": driver, "start": start, "flags": list(flags), "chain": chain,
                                        "op": p["op"], "claim": pr})
 
+    def check_meta(driver, start, flags, chain, hops):
+        nonlocal evals
+        if hops is None:
+            return
+        for (via, hop), got in zip(META_HOPS, hops):
+            evals += 1
+            dist["meta_listing_probes"] = dist.get("meta_listing_probes", 0) + 1
+            for pr in claims_meta(flags, STARTS[start][0], got):
+                candidates.append({"driver": driver, "start": start, "flags": list(flags), "chain": chain,
+                                   "op": ["meta_node", via, hop], "claim": pr})
+
     for o in outs:
         driver, start, flags, sl = o["task"]
         if sl == 0:
-            segs, kind, acl, results, problems = o["start"]
+            segs, kind, acl, results, problems, hops = o["start"]
+            check_meta(driver, start, flags, [], hops)
             if tuple(acl) != tuple(flags) or segs != STARTS[start][0]:
                 note_dis({"kind": "start", "driver": driver, "start": start, "flags": flags, "impl": [segs, acl]})
             check_ops(driver, start, flags, [], kind, tuple(flags), results, problems)
@@ -1017,7 +1125,7 @@ def run(ctx: vlib.Ctx):
                     candidates.append({"driver": driver, "start": start, "flags": list(flags),
                                        "chain": chain + [prim], "op": None, "claim": RAW_CLAIM})
                 continue
-            _, _, segs, kind, acl, results, problems = item
+            _, _, segs, kind, acl, results, problems, hops = item
             dist["nodes_reached"] += 1
             reached.add((driver, start, tuple(flags), json.dumps(chain + [prim])))
             impl = ("O", segs, kind, tuple(acl))
@@ -1036,6 +1144,8 @@ def run(ctx: vlib.Ctx):
                 (not flags[1] or segs[:len(start_path)] == list(start_path))
             check_ops(driver, start, flags, chain + [prim], kind, m[3] if m[0] == "O" else None, results, problems,
                       node_ok)
+            if node_ok:
+                check_meta(driver, start, flags, chain + [prim], hops)
 
     # monotonicity along steps on the code alone: compare every reached node with its predecessor
     acl_of: Dict[Tuple, Tuple] = {}
@@ -1068,7 +1178,10 @@ def run(ctx: vlib.Ctx):
                                               len(c["chain"]), sum(c["flags"]), [-int(x) for x in c["flags"]],
                                               c["driver"]))
     for c in order:
-        k = json.dumps([c["claim"], c["chain"][-1][0] if c["chain"] else None, c["op"][:2] if c["op"] else None])
+        if c["op"] and c["op"][0] == "meta_node":
+            k = json.dumps([c["claim"]])
+        else:
+            k = json.dumps([c["claim"], c["chain"][-1][0] if c["chain"] else None, c["op"][:2] if c["op"] else None])
         by_group.setdefault(k, c)
     kept: List[Dict[str, Any]] = []
     seen_sig = set()
